@@ -16,9 +16,9 @@ not generated).
 import itertools
 
 NAME = "fivecells"
-STATUS = "differential only"
+STATUS = "model+differential"
 THEOREMS = []
-LEAN_CMD = None
+LEAN_CMD = "puz_fivecells"
 
 _SHAPES = [(1, 5), (5, 1), (2, 5), (5, 2), (2, 3), (3, 2), (3, 3), (3, 4), (4, 3), (2, 6), (6, 2), (1, 4), (1, 6), (4, 1), (2, 2), (1, 1), (1, 10),
            (3, 5), (5, 3), (4, 4)]
@@ -169,3 +169,11 @@ def classify(problem, description):
     if "raised" in description:
         return "raises"
     return "mismatch"
+
+
+def _table(t):
+    return "(" + " ".join("(" + " ".join(str(v) for v in row) + ")" for row in t) + ")"
+
+
+def lean_line(problem):
+    return "(puz_fivecells %d %d %s)" % (problem["height"], problem["width"], _table(problem["problem"]))
